@@ -11,7 +11,12 @@
  *                    keeps it in a variable of its own stack frame (it replaces the raw one made up front); in `gc` lines
  *                    the token TU stands for that variable (kept on the stack / dropped)
  *   pubo K | rdo U   store a pointer to the own object K in a Ref of the joiner | dereference what thread U stored
- *   kf NAME          run the reproducer of a known finding in a forked child (mark-foreign-tls)
+ *   kf NAME          run the reproducer of a known finding in a forked child (mark-foreign-tls); `kf walk-quiet` is its control: the
+ *                    maker of `x = new(Thread, f)` collects many times while the worker runs WITHOUT writing its table: must be undisturbed
+ *   call U K [K2]    `call(thread_U, objK [, objK2])`: like `spawn U`, the caller's own objects K (K2) are the arguments
+ *   rdarg I          the thread function reads argument I of its call (`get(args, $I(I))`) and uses the object
+ *   wthrow M         `try { with (x in mutex_M) { throw } } catch {}`: the section of M is left by an exception — the jump skips
+ *                    stop_in, the Mutex stays locked by this thread (a later `unlock M` releases it)
  * events: spawn U | join U | begin | end | new K | newroot K | newx K (destructor does try/throw/catch) | del U K | gc K* | churn N | tset KEY U K | tget KEY |
  *         tmem KEY | trem KEY | x <exception program> | lookup TY CLS | pub V | perr FN ERRNO | work KIND SEED N |
  *         lock M | unlock M | trylock M | enter M | leave M | winc M C | ld C | st C | rd U
@@ -34,7 +39,11 @@
  *   c13-cache          type_instance through the shared cache differs from the declaration
  *   c13-errmap         pthread error code translated to another exception than documented
  *   c13-wrapper        a Cello lock/unlock/trylock/join did not map 1:1 onto the pthread primitive of that object
+ *   c13-arg-value      an argument read back in the thread function is not the object that was handed over
+ *   c13-walk-disturbed the control of kf-c13-mark-foreign-tls failed: a thread that only allocates was disturbed although the table walked was not being written
  * Known findings (X lines with a `kf-` signature; generated cases stay out of their territory):
+ *   kf-c13-thread-arg-collected    an object handed to a thread as an argument was finalised by its owner's collector while the thread
+ *                                  uses it (Thread_Call keeps a raw copy of the tuple, Thread_Mark presents t->tls only)
  *   kf-c13-mark-foreign-tls        the mark phase of a thread that holds `new(Thread, f)` of a running thread walks that thread's
  *                                  thread-local table while it is being rewritten (forked child: exception out of `new`, or memory error)
  *   kf-c13-join-result-finalised   after join(U) the object U allocated and handed to the joiner has been finalised by U's teardown
@@ -124,10 +133,10 @@ static var probe_class(int i) {
 
 /* ------------------------------------------------------------------------------------------- events */
 enum { OP_SPAWN, OP_JOIN, OP_BEGIN, OP_END, OP_NEW, OP_NEWROOT, OP_NEWX, OP_DEL, OP_GC, OP_CHURN, OP_TSET, OP_TGET, OP_TMEM, OP_TREM,
-       OP_X, OP_LOOKUP, OP_PUB, OP_PERR, OP_WORK, OP_NEWTHR, OP_PUBO, OP_KF, OP_LOCK, OP_UNLOCK, OP_TRYLOCK, OP_ENTER, OP_LEAVE, OP_WINC, OP_LD, OP_ST, OP_RD, OP_RDO, OP_BAD };
+       OP_X, OP_LOOKUP, OP_PUB, OP_PERR, OP_WORK, OP_NEWTHR, OP_PUBO, OP_KF, OP_LOCK, OP_UNLOCK, OP_TRYLOCK, OP_ENTER, OP_LEAVE, OP_WINC, OP_LD, OP_ST, OP_RD, OP_RDO, OP_CALL, OP_RDARG, OP_WTHROW, OP_BAD };
 static const char* opname[] = { "spawn", "join", "begin", "end", "new", "newroot", "newx", "del", "gc", "churn", "tset", "tget", "tmem", "trem",
-       "x", "lookup", "pub", "perr", "work", "newthr", "pubo", "kf", "lock", "unlock", "trylock", "enter", "leave", "winc", "ld", "st", "rd", "rdo", "bad" };
-static int is_sync(int op) { return op == OP_SPAWN || op == OP_JOIN || (op >= OP_LOCK && op <= OP_RDO); }
+       "x", "lookup", "pub", "perr", "work", "newthr", "pubo", "kf", "lock", "unlock", "trylock", "enter", "leave", "winc", "ld", "st", "rd", "rdo", "call", "rdarg", "wthrow", "bad" };
+static int is_sync(int op) { return op == OP_SPAWN || op == OP_JOIN || (op >= OP_LOCK && op <= OP_WTHROW); }
 
 enum { STMT, THROW, SEQ, TRY, CALL };
 typedef struct Node { int kind; int n; int filt[8]; int nfilt; struct Node *a, *b; } Node;
@@ -283,6 +292,8 @@ static atomic_int entered[MAXT];          /* the thread function of u has been e
 static int pubo_t[MAXT], pubo_k[MAXT];    /* what thread t stored into the joiner's Ref: object pubo_t.pubo_k (pubo_k < 0: nothing) */
 static var pubo_ref[MAXT];                /* the Ref itself (raw) */
 static var tid_obj[MAXT];                 /* raw Int carrying the tid to the thread function */
+static int arg_n[MAXT], arg_t[MAXT][2], arg_k[MAXT][2];   /* the objects handed to thread u by the `call` of its current run */
+static __thread var my_args;              /* the argument tuple the thread function was given (args[0] = tid_obj, then the objects) */
 static var pub_obj[MAXT];                 /* raw Int written by thread t (`pub`), read by others (`rd`) */
 static long last_pub[MAXT];               /* last value thread t's program publishes */
 static var mutex_obj[MAXM];               /* raw Mutex objects */
@@ -539,6 +550,44 @@ static void kf_mark_foreign_tls(int line) {
        WIFSIGNALED(st) ? "signal" : "exit status", WIFSIGNALED(st) ? WTERMSIG(st) : WEXITSTATUS(st));
 }
 
+/* control of KF-C13-mark-foreign-tls (audit2 item 2a): the same shape, but the worker does not write its table while main
+   collects — it sets one thread-local value before main starts and then only allocates in its own collector.  The walk is
+   read-only for the walker: main must compute its solo result. */
+static volatile int wq_ready = 0;
+static var wq_worker(var args) {
+  var me = current(Thread);
+  set(me, $S("once"), $I(7));
+  wq_ready = 1;
+  long n = 0;
+  while (!kf_halt) { var o = new(Int, $I(n)); (void)o; n++; if ((n & 1023) == 0) sched_yield(); }
+  return NULL;
+}
+static void kf_walk_quiet(int line) {
+  fflush(stdout);
+  pid_t pid = fork();
+  if (pid == 0) {
+    signal(SIGALRM, SIG_DFL); alarm(12);
+    int devnull = open("/dev/null", 1); if (devnull >= 0) dup2(devnull, 2);
+    malloc_noise_off();
+    var x = new(Thread, $(Function, wq_worker));
+    call(x);
+    while (!wq_ready) sched_yield();
+    volatile int diverted = 0; volatile long long sum = 0; volatile long done = 0; time_t t0 = time(NULL);
+    /* at most 5 s (the parent's progress watchdog allows 15): on a loaded machine fewer allocations are made */
+    try { for (long i = 0; i < 120000 && (i % 1000 != 0 || time(NULL) - t0 < 5); i++) { var o = new(Int, $I(i)); sum += c_int(o); done = i + 1; } } catch (e) { diverted = 1; }
+    kf_halt = 1;
+    if (diverted) _exit(3);
+    if (sum != (long long)(done - 1) * (long long)done / 2) _exit(4);
+    join(x);
+    _exit(0);
+  }
+  int st = 0; waitpid(pid, &st, 0);
+  if (WIFSIGNALED(st) && WTERMSIG(st) == SIGALRM) I("kf walk-quiet: inconclusive (the child did not finish within 12 s on this machine)");
+  else if (!(WIFEXITED(st) && WEXITSTATUS(st) == 0))
+    XX("sig=c13-walk-disturbed line=%d what=main holds `x = new(Thread, f)` and only allocates while the worker (one thread-local value, set before) allocates in its own collector: main was disturbed (%s %d)", line,
+       WIFSIGNALED(st) ? "signal" : "exit status", WIFSIGNALED(st) ? WTERMSIG(st) : WEXITSTATUS(st));
+}
+
 /* ------------------------------------------------------------------------------------------- one local operation */
 static void exec_local(Evt* e, var* held) {
   int me = my_tid;
@@ -558,6 +607,7 @@ static void exec_local(Evt* e, var* held) {
       set_out(e, "ok"); break; }
     case OP_KF:
       if (!strcmp(e->key, "mark-foreign-tls")) kf_mark_foreign_tls(e->line);
+      if (!strcmp(e->key, "walk-quiet")) kf_walk_quiet(e->line);
       set_out(e, "done"); break;
     case OP_BEGIN: {
       var th = current(Thread);
@@ -683,7 +733,48 @@ static void exec_local(Evt* e, var* held) {
 static var worker(var args);
 
 static void do_spawn(int u) {
+  arg_n[u] = 0;
   call(thread_obj[u], tid_obj[u]);
+}
+/* `spawn U` or `call U K [K2]`: the caller's own objects are the arguments (Thread_Call copies the tuple: the pointers) */
+static void do_spawn_ev(Evt* e, int u) {
+  int me = my_tid;
+  if (e->op != OP_CALL) { do_spawn(u); return; }
+  arg_n[u] = e->nks;
+  for (int i = 0; i < e->nks; i++) { arg_t[u][i] = me; arg_k[u][i] = e->ks[i]; }
+  var a0 = atomic_load(&objs[me][e->ks[0]]);
+  if (e->nks == 1) call(thread_obj[u], tid_obj[u], a0);
+  else { var a1 = atomic_load(&objs[me][e->ks[1]]); call(thread_obj[u], tid_obj[u], a0, a1); }
+}
+static int call_args_ok(Evt* e) {
+  if (e->op != OP_CALL) return 1;
+  for (int i = 0; i < e->nks; i++) if (!used[my_tid][e->ks[i]]) return 0;
+  return 1;
+}
+/* the thread function reads argument i of its call and uses the object */
+static void exec_rdarg(Evt* e) {
+  int me = my_tid, i = (int)e->a;
+  if (i >= arg_n[me]) { set_out(e, "noval"); return; }
+  int ot = arg_t[me][i], ok = arg_k[me][i];
+  if (atomic_load(&led_fin[ot][ok]) > 0) {
+    /* the pointer is not dereferenced: the ledger says the object is dead */
+    if (isroot[ot][ok]) XX("sig=c13-lost-object line=%d what=thread %d uses argument %d of its call, the root object %d.%d: it has been finalised (by the collector of thread %d)", e->line, me, i, ot, ok, atomic_load(&led_by[ot][ok]) - 1);
+    else XX("sig=kf-c13-thread-arg-collected line=%d what=thread %d uses argument %d of its call, object %d.%d: it has been finalised by the collector of thread %d while the thread holds it (Thread_Call keeps a raw copy of the tuple, nothing marks through t->args)", e->line, me, i, ot, ok, atomic_load(&led_by[ot][ok]) - 1);
+    set_out(e, "dangling=%d.%d", ot, ok); return; }
+  struct ProbeA* p = get(my_args, $I(i + 1));
+  if ((var)p != atomic_load(&objs[ot][ok]) || p->canary != CANARY || p->owner != ot || p->k != ok)
+    XX("sig=c13-arg-value line=%d what=thread %d: argument %d of its call does not read back as object %d.%d", e->line, me, i, ot, ok);
+  set_out(e, "val=%d.%d", ot, ok);
+}
+/* `try { with (x in m) { throw } } catch {}`: returns 1 when the Mutex is still locked afterwards (the jump skipped stop_in) */
+static int exec_wthrow(int m) {
+  volatile int caught = 0;
+  tl_cello_sync = 1;
+  try { with (x in mutex_obj[m]) { throw(ValueError, "leaving the section of Mutex %i by an exception", $I(m)); } } catch (ex) { caught = 1; }
+  tl_cello_sync = 0;
+  pthread_mutex_t* pm = mutex_prim(mutex_obj[m]);
+  if (__real_pthread_mutex_trylock(pm) == 0) { __real_pthread_mutex_unlock(pm); return 0; }
+  return 1;
 }
 
 /* runs as a pthread key destructor: after Thread_Init_Run (and so the teardown) has returned */
@@ -729,14 +820,15 @@ static int mutex_really_free(int m, int line) {
 static void exec_sync_sched(Evt* e) {
   int me = my_tid;
   switch (e->op) {
-    case OP_SPAWN: {
+    case OP_SPAWN: case OP_CALL: {
       int u = (int)e->a;
       int ph = (u > 0 && u <= nworkers) ? atomic_load(&phase[u]) : -1;
+      if (!call_args_ok(e)) { set_out(e, "bad"); break; }
       if (ph >= 0 && wrapper_gone[u]) { set_out(e, "ub"); break; }      /* call on a finalised Thread object: not executed */
       if (!(ph == PH_UNBORN || (ph == PH_DONE && was_joined[u]))) { set_out(e, "bad"); break; }
       was_joined[u] = 0; end_idx[u] = -1;                   /* a joined Thread object may be called again */
       atomic_store(&entered[u], 0);
-      atomic_store(&phase[u], PH_READY); do_spawn(u);
+      atomic_store(&phase[u], PH_READY); do_spawn_ev(e, u);
       /* a collector-managed Thread object: its maker's collections walk this thread's table, which the prologue of
          Thread_Init_Run writes (__GC, __Exception): wait until the prologue is over before the next event runs */
       if (managed[u]) while (!atomic_load(&entered[u])) sched_yield();
@@ -803,6 +895,13 @@ static void exec_sync_sched(Evt* e) {
       struct ProbeA* p = atomic_load(&objs[ot][ok]);
       if (p && (deref(pubo_ref[u]) != (var)p || p->canary != CANARY)) XX("sig=c13-join-stale line=%d what=the pointer thread %d published does not read back as its object %d.%d", e->line, u, ot, ok);
       set_out(e, "val=%d.%d", ot, ok); break; }
+    case OP_RDARG: exec_rdarg(e); break;
+    case OP_WTHROW: {
+      int m = (int)e->a % MAXM;
+      if (shadow_holder[m]) { set_out(e, "blocked"); break; }
+      if (!mutex_really_free(m, e->line)) { set_out(e, "blocked"); break; }
+      if (!exec_wthrow(m)) { set_out(e, "released-by-throw"); break; }
+      shadow_holder[m] = me + 1; sec_enter(m, e->line); set_out(e, "acquired"); break; }
     default: set_out(e, "bad"); break;
   }
 }
@@ -813,15 +912,16 @@ static void exec_sync_free(Evt* e) {
   int me = my_tid;
   set_out(e, "sync");
   switch (e->op) {
-    case OP_SPAWN: {
+    case OP_SPAWN: case OP_CALL: {
       int u = (int)e->a;
       if (u <= 0 || u > nworkers) break;
+      if (!call_args_ok(e)) break;
       __real_pthread_mutex_lock(&bm);
       int ph = atomic_load(&phase[u]); int can = ph == PH_UNBORN || (ph == PH_DONE && was_joined[u]);
       if (wrapper_gone[u]) can = 0;
       if (can) { was_joined[u] = 0; end_idx[u] = -1; atomic_store(&entered[u], 0); atomic_store(&phase[u], PH_READY); }
       __real_pthread_mutex_unlock(&bm);
-      if (can) do_spawn(u);
+      if (can) do_spawn_ev(e, u);
       break; }
     case OP_JOIN: {
       int u = (int)e->a;
@@ -863,6 +963,8 @@ static void exec_sync_free(Evt* e) {
     case OP_ST: { int c = (int)e->a % MAXC; if (!holds[c % MAXM] || ldvalid != c + 1) break; ldvalid = 0; counter[c] = ldreg[me] + 1; atomic_fetch_add(&counter_expected[c], 1); break; }
     case OP_RD: break;   /* checked at join */
     case OP_RDO: break;  /* checked at join */
+    case OP_RDARG: exec_rdarg(e); set_out(e, "sync"); break;
+    case OP_WTHROW: { int m = (int)e->a % MAXM; if (holds[m]) break; if (exec_wthrow(m)) sec_enter(m, e->line); else XX("sig=c13-overlap line=%d what=an exception out of a with block released Mutex %d", e->line, m); break; }
   }
 }
 
@@ -938,7 +1040,7 @@ static void run_thread_events(int me, var* held) {
 
 static var worker(var args) {
   int me = (int)c_int(get(args, $I(0)));
-  my_tid = me;
+  my_tid = me; my_args = args;
   pthread_setspecific(exit_key, (void*)(intptr_t)(me + 1));
   atomic_store(&entered[me], 1);                 /* the prologue of Thread_Init_Run is over */
   var held[MAXK + MAXT]; memset(held, 0, sizeof held);   /* named objects, then the `var x = new(Thread, f)` variables (HTHR) */
@@ -994,6 +1096,10 @@ static int parse_event(char* line, Evt* e) {
     int er = parse_errno(a[1]); if (fn == FN_NONE || er < 0) FAIL; e->op = OP_PERR; e->a = fn; e->b = er; }
   else if (!strcmp(op, "work") && na == 3 && LT(0, 4) && LT(1, 1000000) && LT(2, 1000000)) { e->op = OP_WORK; e->a = atol(a[0]); e->b = atol(a[1]); e->c = atol(a[2]); }
   else if (!strcmp(op, "spawn") && na == 1 && LT(0, MAXT) && atol(a[0]) >= 1) { e->op = OP_SPAWN; e->a = atol(a[0]); }
+  else if (!strcmp(op, "call") && (na == 2 || na == 3) && LT(0, MAXT) && atol(a[0]) >= 1 && LT(1, MAXK) && (na == 2 || LT(2, MAXK))) {
+    e->op = OP_CALL; e->a = atol(a[0]); e->nks = na - 1; e->ks = calloc(2, sizeof(int)); for (int i = 1; i < na; i++) e->ks[i - 1] = atoi(a[i]); }
+  else if (!strcmp(op, "rdarg") && na == 1 && LT(0, 8)) { e->op = OP_RDARG; e->a = atol(a[0]); }
+  else if (!strcmp(op, "wthrow") && na == 1 && LT(0, MAXM)) { e->op = OP_WTHROW; e->a = atol(a[0]); }
   else if (!strcmp(op, "join") && na == 1 && LT(0, MAXT) && atol(a[0]) >= 1) { e->op = OP_JOIN; e->a = atol(a[0]); }
   else if (!strcmp(op, "lock") && na == 1 && LT(0, MAXM)) { e->op = OP_LOCK; e->a = atol(a[0]); }
   else if (!strcmp(op, "enter") && na == 1 && LT(0, MAXM)) { e->op = OP_ENTER; e->a = atol(a[0]); }
@@ -1028,7 +1134,7 @@ int main(int argc, char** argv) {
   }
   for (size_t i = 0; i < nev; i++) {
     if (ev[i].tid > nworkers) nworkers = ev[i].tid;
-    if ((ev[i].op == OP_SPAWN || ev[i].op == OP_JOIN || ev[i].op == OP_RD || ev[i].op == OP_RDO || ev[i].op == OP_NEWTHR) && ev[i].a > nworkers) nworkers = (int)ev[i].a;
+    if ((ev[i].op == OP_SPAWN || ev[i].op == OP_CALL || ev[i].op == OP_JOIN || ev[i].op == OP_RD || ev[i].op == OP_RDO || ev[i].op == OP_NEWTHR) && ev[i].a > nworkers) nworkers = (int)ev[i].a;
   }
   for (int t = 0; t < MAXT; t++) { end_idx[t] = -1; last_pub[t] = 0; }
   for (size_t i = 0; i < nev; i++) {            /* what thread t has published last when it reaches each of its `end`s */
